@@ -61,6 +61,7 @@ long	__real_sysconf(int);
 #define OP_YIELD	5
 #define OP_EPOLL	6
 #define OP_QUIESCENT	7
+#define OP_GATE		8
 
 typedef struct sc_thr_s {
 	int	used, finished, joined;
@@ -232,6 +233,8 @@ thr_enabled(int t, int others_enabled) {
 		return (poll(&pfd, 1, 0) > 0 && 0 != (pfd.revents & (POLLIN | POLLERR | POLLHUP | POLLNVAL)));
 	case OP_QUIESCENT:
 		return (!others_enabled);
+	case OP_GATE:
+		return (0 != *(volatile int *)th->obj);
 	default:
 		return (1);
 	}
@@ -361,6 +364,12 @@ sc_yield(const char *tag) {
 void
 sc_wait_quiescent(void) {
 	sc_point_ex(OP_QUIESCENT, NULL, 0, "wait_quiescent");
+}
+
+/* Harness-level blocking: the caller is not enabled until *flag becomes non-zero. */
+void
+sc_gate_wait(volatile int *flag, const char *tag) {
+	sc_point_ex(OP_GATE, (void *)flag, 0, tag);
 }
 
 int
@@ -545,7 +554,15 @@ __wrap_epoll_ctl(int epfd, int op, int fd, struct epoll_event *ev) {
 			return (-1);
 		}
 	}
-	return (__real_epoll_ctl(epfd, op, fd, ev));
+	{
+		int r = __real_epoll_ctl(epfd, op, fd, ev);
+		int e = errno;
+		/* the kernel registration changed: the owning loop may see it before the caller's next store */
+		if (sc_active && sc_my_id >= 0)
+			sc_point_ex(OP_GENERIC, NULL, 0, "epoll_ctl.after");
+		errno = e;
+		return (r);
+	}
 }
 
 int
@@ -620,7 +637,15 @@ __wrap_write(int fd, const void *buf, size_t n) {
 			}
 		}
 	}
-	return (__real_write(fd, buf, n));
+	{
+		ssize_t r = __real_write(fd, buf, n);
+		int e = errno;
+		/* the message is published now: let others run before the writer's next plain access */
+		if (sc_active && sc_my_id >= 0)
+			sc_point_ex(OP_GENERIC, NULL, 0, "write.after");
+		errno = e;
+		return (r);
+	}
 }
 
 int
